@@ -501,6 +501,8 @@ type ConcStats struct {
 	Notes      map[string]int `json:"notes,omitempty"`
 	Viol       int            `json:"violations"`
 	WallS      float64        `json:"wall_s"`
+	SimNs      int64          `json:"sim_ns"`
+	SimJumps   int64          `json:"sim_jumps"`
 	FirstIdx   int            `json:"first_idx"`
 	LastIdx    int            `json:"last_idx"`
 	sigs       map[string]bool
@@ -830,6 +832,13 @@ func runEpisode(ep *Episode, pool []*Op, refs []Ref, st *ConcStats, a *concArgs)
 			st.Blocked++
 			blockedStreak++
 			blockedSet[g.C] = true
+			if len(blockedSet) >= live && zzsimrt.AdvanceClock() {
+				// everybody waits: simulated time jumps to the next timer or wake-up
+				blockedSet = map[int]bool{}
+				blockedStreak = 0
+				adopt()
+				break
+			}
 			if topLive == 0 && len(blockedSet) >= live {
 				// only goroutines of the library are left and none can run:
 				// they are leaked, not deadlocked callers; leave them parked
@@ -1123,6 +1132,7 @@ func concMain(a concArgs) int {
 	st.LastIdx = idx
 	st.Viol = viols
 	st.WallS = time.Since(start).Seconds()
+	st.SimNs, st.SimJumps = zzsimrt.SimAdvanced()
 	for k := range st.sigs {
 		st.SchedSigs = append(st.SchedSigs, k)
 	}
